@@ -306,7 +306,7 @@ def main(argv: Optional[List[str]] = None) -> int:
                     violations.append(rel)
                     print(f"VIOLATION property={pid} replay={rel}")
                     print(f"  check={fz['failure']['check']} detail={str(fz['failure']['detail'])[:800]} (found by the libFuzzer tier)")
-                c_eval += fz.get("executions", 0)
+                evaluations += fz.get("executions", 0)  # counted in the total, not in the generator-class fractions
             evaluations += c_eval
             classes.update(c_classes)
             nontrivial.update(f"{camp.name}:{h}" for h in c_nt)
